@@ -53,9 +53,9 @@ CONFIG = {
                 thorough=[(PROSE, 4, 3), (['a', 'b', 'sp', 'uk', 'ob', 'cb', 'add', 'fn', 'sec', 'bi', 'ei', 'it', 'skp', 'cm', 'im'], 5, 3),
                           (CITEO, 8, 3), (['a', 'sp', 'fn', 'cap', 'cb', 'up', 'tc', 'lb'], 7, 2), (M3, 6, 2)],
                 sim=(PROSE, 300, 3000)),
-    'C04': dict(key='c04', focus={'uA', 'uB', 'uBt', 'uC', 'uCo', 'uD', 'uG', 'uF', 'ref', 'cite', 'im', 'imp', 'it', 'sec', 'sub', 'fn', 'cap', 'par', 'bm'},
+    'C04': dict(key='c04', focus={'gls', 'uA', 'uB', 'uBt', 'uC', 'uCo', 'uD', 'uG', 'uF', 'ref', 'cite', 'im', 'imp', 'it', 'sec', 'sub', 'fn', 'cap', 'par', 'bm'},
                 quick=[(GENER, 3, 2), (['a', 'sp', 'nl', 'ref', 'cite', 'im', 'it', 'be', 'ee', 'sec', 'fn', 'cb', 'par'], 4, 2),
-                       (M1, 6, 2), (M2, 7, 2), (M3, 5, 2), (M4, 5, 2)],
+                       (M1, 6, 2), (M2, 7, 2), (M3, 5, 2), (M4, 5, 2), (['a', 'sp', 'gld', 'gls', 'nl', 'fn', 'cb'], 6, 2)],
                 thorough=[(GENER, 4, 3), (['a', 'sp', 'nl', 'ref', 'cite', 'im', 'it', 'be', 'ee', 'sec', 'fn', 'cb', 'par'], 5, 3),
                           (M1, 8, 2), (M2, 9, 2), (M3, 6, 2), (M4, 7, 2)],
                 sim=(GENER, 300, 3000)),
@@ -88,7 +88,7 @@ CONFIG = {
                 thorough=[(LAYOUT, 6, 1), (LAYOUT2, 4, 2), (['a', 'sp', 'nl', 'cm', 'lb', 'uk', 'ob', 'cb', 'skp', 'par', 'tab'], 5, 2), (LINES10, 5, 1), (LINES, 4, 2)],
                 sim=(LAYOUT2, 300, 3000)),
 }
-OPTS = {'pack': 'xcolor,listings,amsmath'}
+OPTS = {'pack': 'xcolor,listings,amsmath,glossaries'}
 
 
 def project(rec):
@@ -142,7 +142,8 @@ def generate(c, confs, sim, tier):
 
 def make_files():
     os.makedirs('/tmp/yvfiles', exist_ok=True)
-    for name, content in (('e.tex', ''), ('d.tex', '\\newcommand{\\ma}{mn}')):
+    for name, content in (('e.tex', ''), ('d.tex', '\\newcommand{\\ma}{mn}'),
+                          ('g.glsdefs', '\\gls@defglossaryentry{ab}{name={ab},text={abt},plural={abts},description={d}}\n')):
         p = os.path.join('/tmp/yvfiles', name)
         if not os.path.exists(p) or open(p).read() != content:
             open(p, 'w').write(content)
